@@ -413,3 +413,13 @@ Definition mux_read (tx : bool) (x : mux_input) : list fsample :=
   map fst (read_trun (mi_frag x) (if tx then Some (mi_trex x) else None) (mi_trun x) (mi_sizes x)).
 Definition combine_inputs (ids : list N) (xs : list mux_input) : frag_out :=
   combine_tracks ids (map (mux_read false) xs).
+
+(* Resegment's input collection: a fragmented file as fragments -> truns of the first traf -> samples.
+   inSamples is GetFullSamples over ALL truns of every fragment; nrSamples (the count the code keeps for
+   capacity bookkeeping and the nrChunksOut estimate) looks at the FIRST trun of each fragment only. *)
+Definition in_samples (frags : list (list (list fsample))) : list fsample := concat (map (@concat _) frags).
+Definition nr_samples_first_truns (frags : list (list (list fsample))) : N :=
+  sumN (map (fun f => match f with [] => 0 | t :: _ => lenN t end) frags).
+(* the final flush ends at len(inSamples)+1 (reseg_loop's [] case), NOT at nrSamples+1 *)
+Definition resegment_file (d : N) (frags : list (list (list fsample))) : res (list (list fsample)) :=
+  resegment d (in_samples frags).
